@@ -322,6 +322,17 @@ def _task_options(task):
                     t.violation({"kind": "listing-wrong", "file_name": name}, case, expected=_expect_listing(pkts), observed=table_rows(out)[:8])
                 elif cmd == "parse" and [int(x) for x in re.findall(r"'PKT_APID':\s*(\d+)", out)] != [102]:
                     t.violation({"kind": "parse-shows-wrong-packet", "file_name": name}, case, expected=[102], observed=out[-200:])
+                if cmd == "parse" and not g:
+                    # ... and an index beyond the file: the out-of-range message, whatever the path looks like
+                    logging.disable(logging.NOTSET)
+                    try:
+                        code2, exc2, out2 = invoke(["parse", fpath, xtce, "--packet", "99"])
+                    finally:
+                        logging.disable(logging.CRITICAL)
+                    t.evals += 1
+                    if code2 != 0 or exc2 or "out of range" not in out2:
+                        t.violation({"kind": "cli-crash" if (code2 != 0 or exc2) else "parse-out-of-range-not-reported", "cmd": "parse", "exit": str(code2), "exc": exc2, "file_name": name},
+                                    {**case, "index": 99}, observed=out2[-300:], note="an index beyond the file on a path with special characters")
     shutil.rmtree(base, ignore_errors=True)
     for pth in (path, xtce):
         try:
